@@ -76,6 +76,17 @@ ASSUMPTIONS = [
     "coincidences with tag/seq fields and the true collision test/event[string f35453] / [string f30164, varint n]); a record never nests "
     "both types of a pair (that is C03's known finding); the CSV pools hold free text with lone CR, CRLF, trailing CR and LF, written with the "
     "default line terminator; a CSV file is judged by row integrity (every row is a header or one complete record, the free-text cell intact)",
+    "the stream / JSON pools also hold composite records whose parts are two types of ONE name with different fields (c17/k and its "
+    "extended version: members of one grouped record, items of one record[] field, two nested record fields), the first occurrence of both "
+    "being that very object; these types have different hashes (identifier-coincident types are never put into one frame)",
+    "descriptor-object turnover: in the marked histories an equal descriptor object is re-created before every write (record._desc is then "
+    "a new, equal object); a CSV file must hold exactly one header row per run of records of one type (type = name + flat field list)",
+    "the raw-byte concatenation of split parts is judged for plain / gzip stream parts, JSON-lines parts and CSV parts (a header row is "
+    "expected at the first record of every part)",
+    "operations after close (marked histories, and the time-templated writers closed mid-hour): a late write()/flush() may raise; a late "
+    "write() that returns must have its record on disk after the final close",
+    "configuration dimension: marked close / split / rotation cases run inside ignore_fields_for_comparison([...]) and one child-interpreter "
+    "variant runs with FLOW_RECORD_IGNORE set; what is written must not depend on the comparison ignore set",
     "records come from a fixed family of three descriptors (flat, with a string list, with nested record / record[]) whose values "
     "(UTC timestamps, single-precision-exact floats, 16-bit integers, bytes, text) every tested format gives back exactly; value "
     "fidelity per type is the subject of C01/C14/C18/C19/C20, not of this check",
@@ -115,6 +126,7 @@ ANCHORS = [
 
 STREAM_KINDS = ["stream", "stream.gz", "stream.bz2", "stream.lz4", "stream.zst", "stream.zstd"]
 GROUPED_SEQS = ["gGx", "Ggx", "gxG", "xgGg"]
+COMPOSITE_SEQS = ["mx", "Mx", "nx", "xMn", "mM", "xm"]  # first occurrence of both same-name types inside one written object
 COINC_SEQS = ["pPx", "Ppx", "qQq", "rRx", "eEe", "EeE", "pxP", "RrR"]  # identifier-coincident same-name types next to each other
 ADAPTERS_A = ["stream", "stream.gz", "stream.bz2", "stream.lz4", "stream.zst", "jsonfile", "avro", "sqlite", "csvfile", "line", "text"]
 ENDINGS = ["c", "x", "cc", "xc", "cx"]  # c = close(), x = leaving the with-block
@@ -276,6 +288,54 @@ def generate(ctx):
                 if ctx.mine(idx):
                     yield {"k": "hist", "ad": kind, "h": h, "sq": sq, "s": subseed("c17", ctx.seed, "ac", kind, h, sq)}
                 idx += 1
+    # (a5) operations AFTER close: write after close, flush after close, close - write - close, for every adapter
+    for kind in ADAPTERS_A + ["stream.zstd"]:
+        for h in ("wcwc", "wwcwwc", "cwc", "wcfc", "wxwc", "wcwx", "wwcfwcc", "cfwc", "wccwc"):
+            if ctx.mine(idx):
+                yield {"k": "hist", "ad": kind, "h": h, "late": 1, "s": subseed("c17", ctx.seed, "al", kind, h)}
+            idx += 1
+    for wk in ROT_WRITERS:
+        for ext in (".records", ".records.gz", ".json"):
+            for pat in ("aa|aa", "a|a", "aa|ab", "ab|ba", "a|b|a", "aab|aab"):
+                if ctx.mine(idx):
+                    yield {"k": "tmplclose", "w": wk, "ext": ext, "pat": pat, "s": subseed("c17", ctx.seed, "c3", wk, ext, pat)}
+                idx += 1
+    # (a6) a comparison ignore set is active while writing (ignore_fields_for_comparison scope)
+    ign_sets = (["seq", "tag"], ["_generated", "blob", "seq"], ["tag", "seq", "when", "items", "inner", "host"])
+    for kind in STREAM_KINDS + ["jsonfile", "avro", "sqlite", "csvfile"]:
+        for hi, h in enumerate(("wwc", "wwwx", "wfwc")):
+            if ctx.mine(idx):
+                yield {"k": "hist", "ad": kind, "h": h, "ign": ign_sets[hi % 3], "s": subseed("c17", ctx.seed, "ai", kind, h)}
+            idx += 1
+    for tg in ("stream", "gz", "json", "uri-stream", "avro"):
+        for limit, n in ((2, 5), (3, 7), (1, 3)):
+            if ctx.mine(idx):
+                yield {"k": "split", "tg": tg, "limit": limit, "sl": 2, "n": n, "end": "xc"[n % 2], "ign": ign_sets[limit % 3],
+                       "s": subseed("c17", ctx.seed, "bi", tg, limit, n)}
+            idx += 1
+    for wk in ROT_WRITERS:
+        for ei, ext in enumerate((".records", ".records.gz", ".json")):
+            for pi, pat in enumerate(("ababa", "aab")):
+                if ctx.mine(idx):
+                    yield {"k": "rot", "w": wk, "t": "hour", "ext": ext, "pat": pat, "sent": "none", "phases": 1, "ign": ign_sets[(ei + pi) % 3],
+                           "s": subseed("c17", ctx.seed, "ci", wk, ext, pat)}
+                idx += 1
+    # (a1d) composite records holding two same-name types (grouped members / record[] items / nested record fields)
+    for kind in STREAM_KINDS + ["jsonfile"]:
+        for h in ("wwc", "wwwx", "wfwwc"):
+            for sq in COMPOSITE_SEQS:
+                if kind == "jsonfile" and "m" in sq:
+                    continue  # grouped records go to the binary stream formats only
+                if ctx.mine(idx):
+                    yield {"k": "hist", "ad": kind, "h": h, "sq": sq, "s": subseed("c17", ctx.seed, "am", kind, h, sq)}
+                idx += 1
+    # (a1e) descriptor-object turnover: equal descriptors re-created while the writer is open; runs of grouped records (CSV)
+    for kind in ("csvfile", "stream", "jsonfile", "line"):
+        for h in ("wwwc", "wwwwx", "wwfwwc"):
+            for sq in (("ccc", "xxx", "cxc", "ggg", "gGg", "ccgg") if kind == "csvfile" else ("xxx", "xyx")):
+                if ctx.mine(idx):
+                    yield {"k": "hist", "ad": kind, "h": h, "sq": sq, "turn": 1, "s": subseed("c17", ctx.seed, "at", kind, h, sq)}
+                idx += 1
     # (a1c) CSV: free text with lone CR / CRLF / LF characters, default line terminator
     for h in ("wc", "wwwx", "wwfwc", "wwwwwwcc"):
         for r in range(3):
@@ -366,6 +426,16 @@ def generate(ctx):
                         yield {"k": "split", "tg": tg, "limit": limit, "sl": 2, "n": n, "end": "xc"[(n + qi + limit) % 2], "sq": sq,
                                "s": subseed("c17", ctx.seed, "bc", tg, limit, n, sq)}
                     idx += 1
+    for tg in ("stream", "gz", "json", "uri-stream"):
+        for limit in (1, 2, 3):
+            for n in (3, 5):
+                for qi, sq in enumerate(COMPOSITE_SEQS):
+                    if tg == "json" and "m" in sq:
+                        continue
+                    if ctx.mine(idx):
+                        yield {"k": "split", "tg": tg, "limit": limit, "sl": 2, "n": n, "end": "xc"[(n + qi + limit) % 2], "sq": sq,
+                               "s": subseed("c17", ctx.seed, "bm", tg, limit, n, sq)}
+                    idx += 1
     for tg in ("csv", "uri-csv"):
         for limit in (1, 2, 3):
             for n in (3, 5, 8):
@@ -448,6 +518,12 @@ def generate(ctx):
                     yield {"k": "rot", "w": wk, "t": "hour", "ext": ext, "pat": "ababa" + "b" * (len(sq) % 2), "sent": "none", "phases": 1, "sq": sq,
                            "s": subseed("c17", ctx.seed, "cc", wk, ext, sq)}
                 idx += 1
+        for ext in (".records", ".records.gz", ".json"):
+            for sq in ("Mx", "nx", "xMn", "Mn"):
+                if ctx.mine(idx):
+                    yield {"k": "rot", "w": wk, "t": "hour", "ext": ext, "pat": "abab" + "a" * (len(sq) % 2), "sent": "none", "phases": 1, "sq": sq,
+                           "s": subseed("c17", ctx.seed, "cm", wk, ext, sq)}
+                idx += 1
         for pat in ("ababa", "aabb", "abcab"):
             if ctx.mine(idx):
                 yield {"k": "rot", "w": wk, "t": "minute", "ext": ".csv", "pat": pat, "sent": "first", "phases": 1, "sq": "ccxc",
@@ -480,6 +556,24 @@ def case_dir(ctx):
     return d
 
 
+def has_composite(expected):
+    """A written object that holds two types of one name with different field lists (grouped members, record[] items,
+    nested record fields)."""
+    def walk(o, acc):
+        if isinstance(o, list):
+            if o and o[0] == "rec" and len(o) == 4:
+                acc.setdefault(o[1], set()).add(repr(o[2]))
+            for x in o:
+                walk(x, acc)
+
+    for o in expected:
+        acc = {}
+        walk(o[2] if o[0] == "grouped" else o[3], acc)
+        if any(len(v) > 1 for v in acc.values()):
+            return True
+    return False
+
+
 def has_coincident_pair(expected):
     """Two records of one type NAME with different field lists (the generated pairs share their identifier hash)."""
     seen = {}
@@ -489,8 +583,24 @@ def has_coincident_pair(expected):
     return any(len(v) > 1 for v in seen.values())
 
 
-def run_ops(w, ops, records, errors):
-    """Drive a writer through a history.  ops: w = write next record, f = flush, c = close, x = leave the with-block."""
+def ignore_scope(ctx, case):
+    """Configuration dimension 'a comparison ignore set is active while writing' (ignore_fields_for_comparison scope)."""
+    import contextlib
+
+    if not case.get("ign"):
+        return contextlib.nullcontext()
+    from flow.record import ignore_fields_for_comparison
+
+    ctx.event("cases_with_ignore_set_active")
+    return ignore_fields_for_comparison(list(case["ign"]))
+
+
+def run_ops(w, ops, records, errors, turnover=False):
+    """Drive a writer through a history.  ops: w = write next record, f = flush, c = close, x = leave the with-block.
+    turnover: before every write an EQUAL descriptor object is created afresh for the record's type (what a second reader of
+    the same stream, or a producer that re-defines its descriptor per batch, does): record._desc is then a new object."""
+    from flow.record import GroupedRecord, RecordDescriptor
+
     it = iter(records)
     failed_writes = []
     i = 0
@@ -498,7 +608,10 @@ def run_ops(w, ops, records, errors):
         try:
             if op == "w":
                 i += 1
-                w.write(next(it))
+                rec = next(it)
+                if turnover and not isinstance(rec, GroupedRecord):
+                    RecordDescriptor(rec._desc.name, list(rec._desc.get_field_tuples()))
+                w.write(rec)
             elif op == "f":
                 w.flush()
             elif op == "c":
@@ -546,19 +659,36 @@ def exec_history(ctx, case):
             ctx.event("a_histories_with_both_group_kinds")
     errors = []
     ctx.ev()
-    try:
-        w = RecordWriter(io17.write_uri(kind, path))
-    except Exception as e:  # noqa: BLE001
-        ctx.violation(None, "%s: the writer cannot be created" % kind, detail={"exception": repr(e)[:300]})
-        shutil.rmtree(d, ignore_errors=True)
-        return
-    if "x" in hist:
-        w.__enter__()
-    failed = run_ops(w, hist, records, errors)
-    del w
-    if io17.observe_all(records) != expected:
+    with ignore_scope(ctx, case):
+        try:
+            w = RecordWriter(io17.write_uri(kind, path))
+        except Exception as e:  # noqa: BLE001
+            ctx.violation(None, "%s: the writer cannot be created" % kind, detail={"exception": repr(e)[:300]})
+            shutil.rmtree(d, ignore_errors=True)
+            return
+        if "x" in hist:
+            w.__enter__()
+        failed = run_ops(w, hist, records, errors, turnover=bool(case.get("turn")))
+        del w
+    if case.get("late"):
+        # operations after the first close: either the late operation raises, or its record is on disk after the final close
+        first_close = min(hist.index(c) for c in "cx" if c in hist)
+        late_writes = [i for i in range(nw) if [p_ for p_, op in enumerate(hist) if op == "w"][i] > first_close]
+        ctx.event("a_late_writes", len(late_writes))
+        ctx.event("a_late_writes_raised", len([i for i in late_writes if i in failed]))
+        early_failed = [i for i in failed if i not in late_writes]
+        if early_failed:
+            ctx.violation(None, "%s: a write before the first close raised" % kind, detail={"history": hist, "op_errors": errors})
+        expected_all = expected
+        expected = [o for i, o in enumerate(expected) if i not in failed]
+        nw = len(expected)
+    if case.get("turn"):
+        ctx.event("a_histories_with_descriptor_turnover")
+    if has_composite(expected):
+        ctx.event("a_histories_with_same_name_composite")
+    if io17.observe_all(records) != (expected_all if case.get("late") else expected):
         ctx.violation(None, "%s: writing mutated a record" % kind, detail={"history": hist})
-    ctx.nontrivial("hist", kind, hist, case.get("sq"))
+    ctx.nontrivial("hist", kind, hist, case.get("sq"), case.get("late"), tuple(case.get("ign") or ()))
     ctx.cell("hist", kind, hist[-2:] if hist[-2:] in ("cc", "xc", "cx") else hist[-1:])
     ctx.event("a_cases")
     ctx.event("a_records_written", nw)
@@ -583,9 +713,10 @@ def exec_history(ctx, case):
     if problems:
         key = None
         first_closing = next(op for op in hist if op in "cx")
-        if fam == "stream" and nw == 0 and first_closing == "c" and "f" not in hist and stream_empty_mechanism(view, problems):
+        before_close = hist[: hist.index(first_closing)]
+        if fam == "stream" and nw == 0 and first_closing == "c" and "f" not in before_close and stream_empty_mechanism(view, problems):
             key = "stream-close-without-flush-empty"
-        elif fam == "avro" and failed and avro_placeholder_mechanism(view, hist, errors, problems):
+        elif fam == "avro" and failed and not case.get("late") and avro_placeholder_mechanism(view, hist, errors, problems):
             key = "avro-flush-before-first-write"
         report(ctx, key, "%s after history %s" % (kind, hist), problems,
                {"adapter": kind, "history": hist, "op_errors": errors, "file_size": view.size})
@@ -626,6 +757,8 @@ def exec_split(ctx, case):
     expected = io17.observe_all(records)
     if has_coincident_pair(expected):
         ctx.event("b_cases_with_coincident_pair")
+    if has_composite(expected):
+        ctx.event("b_cases_with_same_name_composite")
     if len({tuple(m[1] for m in o[2]) for o in expected if o[0] == "grouped"}) > 1:
         ctx.event("b_cases_with_both_group_kinds")
     errors = []
@@ -644,10 +777,11 @@ def exec_split(ctx, case):
         ctx.violation(None, "split: the writer cannot be created", detail={"exception": repr(e)[:300]})
         shutil.rmtree(d, ignore_errors=True)
         return
-    if end == "x":
-        w.__enter__()
-    run_ops(w, "w" * n + end, records, errors)
-    del w
+    with ignore_scope(ctx, case):
+        if end == "x":
+            w.__enter__()
+        run_ops(w, "w" * n + end, records, errors)
+        del w
     ctx.nontrivial("split", case["tg"], limit, sl, n, end, case.get("sq"))
     ctx.cell("split", case["tg"], "limit%d" % limit, "n%%limit=%s" % ("0" if n % limit == 0 else "r"))
     ctx.event("b_cases")
@@ -695,7 +829,7 @@ def analyse_parts(ctx, case, d, spec, read_scheme, expected, extra, sample_kind)
     if sample_kind.startswith(("splitrel", "optsplit")):
         ctx.event("b_rel_parts", len(parts))  # written by a worker process: not visible to this process's open monitor
 
-    concat_reader, concat_indep, raw = [], [], []
+    concat_reader, concat_indep, raw, part_starts = [], [], [], []
     unclassified_part_problem = False
     held = True
     for pos, (i, nm) in enumerate(parts):
@@ -733,9 +867,10 @@ def analyse_parts(ctx, case, d, spec, read_scheme, expected, extra, sample_kind)
             ctx.violation(None, "split: a part holds more records than the limit", detail=dict(extra, part=nm, holds=len(got), files=names))
         concat_reader.append(got)
         concat_indep.append(view.indep["obs"] if fam == "stream" else list(ind_ids) if fam == "csv" else [tuple(x) for x in ind_ids])
-        if fam == "stream":
+        if fam in ("stream", "json", "csv"):
             with open(p, "rb") as f:
                 raw.append(f.read())
+            part_starts.append(io17.ident(got[0])[1] if got else None)
     flat = [o for part in concat_reader for o in part]
     if unclassified_part_problem:
         held = False  # already reported; the concatenation of the remaining parts would only repeat it
@@ -751,7 +886,24 @@ def analyse_parts(ctx, case, d, spec, read_scheme, expected, extra, sample_kind)
             held = False
             ctx.violation(None, "split: the concatenation seen by the independent reader is not the sequence written",
                           detail=dict(extra, files=names, per_part=[len(x) for x in concat_indep]))
-    # raw-byte concatenation (cat part* > whole): plain and gzip stream parts
+    # raw-byte concatenation (cat part* > whole): JSON-lines and CSV parts (every limit), plain and gzip stream parts
+    if fam in ("json", "csv") and raw and not unclassified_part_problem:
+        whole = os.path.join(d, "whole" + spec["ext"])
+        with open(whole, "wb") as f:
+            f.write(b"".join(raw))
+        wv = io17.inspect_file(fam, codec, whole)
+        if fam == "csv" and wv.indep is not None:
+            wp = [] if wv.indep["tags"] == [io17.ident(o)[1] for o in expected] else [
+                ("indep-mismatch", "the records in the concatenated CSV differ from the records written", {"seen": wv.indep["tags"][:12]})]
+            wp += io17.csv_row_problems(wv.indep["rows_data"], expected, restart_at={t for t in part_starts if t})
+        else:
+            wp = io17.diff_view(fam, wv, expected)
+        ctx.event("b_raw_concatenations_%s" % fam)
+        if sum(1 for r_ in raw if r_) >= 2:
+            ctx.event("b_raw_concatenations_%s_of_2plus_nonempty_parts" % fam)
+        if wp:
+            held = False
+            report(ctx, None, "split: raw-byte concatenation of the %s parts" % fam, wp, dict(extra, files=names))
     if fam == "stream" and codec in (None, "gz") and raw:
         whole = os.path.join(d, "whole" + spec["ext"])
         with open(whole, "wb") as f:
@@ -897,6 +1049,8 @@ def _exec_rotation(ctx, case, keep):
     bounds = [0] + cuts + [len(pat)]
     errors = []
     ctx.state["renames"].clear()
+    scope = ignore_scope(ctx, case)
+    scope.__enter__()
     for ph in range(len(bounds) - 1):
         try:
             if wk == "ptw":
@@ -908,6 +1062,7 @@ def _exec_rotation(ctx, case, keep):
 
                 w = RecordWriter("archive://%s?name=%s" % (root, name) + ("&path_template=" + quote(template, safe="") if template else ""))
         except Exception as e:  # noqa: BLE001
+            scope.__exit__(None, None, None)
             ctx.violation(None, "rotation: the writer cannot be created", detail={"exception": repr(e)[:300], "writer": wk})
             shutil.rmtree(root, ignore_errors=True)
             return
@@ -916,11 +1071,14 @@ def _exec_rotation(ctx, case, keep):
         run_ops(w, ops, seg, errors)
         keep.append(w)
         del w
+    scope.__exit__(None, None, None)
     renames = list(ctx.state["renames"])
     ctx.state["renames"].clear()
     ctx.nontrivial("rot", wk, case["t"], ext, pat, sent, nph, case.get("sq"))
     if has_coincident_pair(expected):
         ctx.event("c_cases_with_coincident_pair")
+    if has_composite(expected):
+        ctx.event("c_cases_with_same_name_composite")
     ctx.cell("rot", wk, ext, "sentinel=" + sent)
     ctx.event("c_cases")
     ctx.event("c_records_written", len(records))
@@ -1151,6 +1309,87 @@ def exec_avro_refuse(ctx, case):
     shutil.rmtree(d, ignore_errors=True)
 
 
+# ---- (c3) time-templated writers: operations after close ------------------------------------------------------------------
+def exec_template_afterclose(ctx, case):
+    """PathTemplateWriter / RecordArchiver / archive://: close() in the middle of an hour, then more records of that hour and of
+    another one, then close again.  Either a late write raises, or its record is in a file after the final close."""
+    import gc
+
+    from flow.record import RecordWriter
+    from flow.record.stream import PathTemplateWriter, RecordArchiver
+
+    rng = random.Random(case["s"])
+    wk, ext = case["w"], case["ext"]
+    kind = ROT_KIND[ext]
+    spec = io17.KINDS[kind]
+    root = case_dir(ctx)
+    base = BASE_TS + _dt.timedelta(days=rng.randrange(300))
+    pat = case["pat"]  # letters a/b = hours, '|' = close()
+    letters = [ch for ch in pat if ch != "|"]
+    stamps = [base + _dt.timedelta(hours="ab".index(ch), minutes=rng.randrange(60), seconds=rng.randrange(60)) for ch in letters]
+    records = io17.make_records(case["s"], len(letters), "xyh", generated=stamps,
+                                extra=[{"host": "h", "n": 1} for _ in letters])
+    obs_all = io17.observe_all(records)
+    template = "{name}-{record._generated:%Y%m%dT%H}" + ext
+    ctx.ev()
+    was_enabled = gc.isenabled()
+    gc.disable()
+    try:
+        try:
+            if wk == "ptw":
+                w = PathTemplateWriter(os.path.join(root, "d", template), name="nm")
+            elif wk == "archiver":
+                w = RecordArchiver(root, path_template=template, name="nm")
+            else:
+                from urllib.parse import quote
+
+                w = RecordWriter("archive://%s?name=nm&path_template=%s" % (root, quote(template, safe="")))
+        except Exception as e:  # noqa: BLE001
+            ctx.violation(None, "template writer cannot be created", detail={"exception": repr(e)[:300], "writer": wk})
+            return
+        errors = []
+        ops = "".join("c" if ch == "|" else "w" for ch in pat) + "c"
+        failed = run_ops(w, ops, records, errors)
+        files = []
+        for dp, _, fns in os.walk(root):
+            files += [os.path.join(dp, fn) for fn in fns]
+        on_disk, bad = [], []
+        for p in sorted(files):
+            view = io17.inspect_file(spec["fam"], spec["codec"], p)
+            if view.reader_error is not None or view.indep_error is not None:
+                bad.append((p[len(root):], view.reader_error, view.indep_error))
+            else:
+                on_disk += view.reader_obs
+        keep = w  # noqa: F841 - judged while the writer is still referenced
+    finally:
+        if was_enabled:
+            gc.enable()
+    first_close = pat.index("|")
+    n_before = len([ch for ch in pat[:first_close] if ch != "|"])
+    late = [i for i in range(len(letters)) if i >= n_before]
+    ctx.nontrivial("tmplclose", wk, ext, pat)
+    ctx.event("c3_cases")
+    ctx.event("c3_late_writes", len(late))
+    ctx.event("c3_late_writes_raised", len([i for i in late if i in failed]))
+    ctx.event("c3_late_writes_returned", len([i for i in late if i not in failed]))
+    extra = {"writer": wk, "ext": ext, "pattern": pat, "op_errors": errors, "files": [p[len(root):] for p in sorted(files)]}
+    if [i for i in failed if i < n_before]:
+        ctx.violation(None, "template writer: a write before the first close raised", detail=extra)
+    expected = [o for i, o in enumerate(obs_all) if i not in failed]
+    if bad:
+        ctx.violation(None, "template writer: a file is not readable after the final close", detail=dict(extra, unreadable=bad[:3]))
+    elif sorted(map(repr, on_disk)) != sorted(map(repr, expected)):
+        ids_w = [io17.ident(o)[1] for o in expected]
+        ids_d = [io17.ident(o)[1] for o in on_disk]
+        ctx.violation(None, "template writer: a record whose write() returned after an earlier close() is not on disk after the final close",
+                      detail=dict(extra, missing=[t for t in ids_w if t not in ids_d][:8], returned=len(expected), on_disk=len(on_disk)))
+    else:
+        ctx.event("c3_held")
+    del keep, w
+    ctx.sample({"case": case, "op_errors": errors}, kind="tmplclose:" + wk)
+    shutil.rmtree(root, ignore_errors=True)
+
+
 def worker_env():
     env = dict(os.environ)
     pp = env.get("PYTHONPATH", "")
@@ -1266,6 +1505,7 @@ def run_state_child(ctx, state, jobs, d, pyflags=(), envextra=None, what="proces
         argv = ["/bin/sh", "-c", 'exec "$0" "$@" >&-'] + argv  # the interpreter starts without descriptor 1 (sys.stdout is None)
     env = worker_env()
     env.pop("PYTHONOPTIMIZE", None)
+    env.pop("FLOW_RECORD_IGNORE", None)
     env.update(envextra or {})
     try:
         p = subprocess.run(argv, env=env, cwd=VERIF_DIR, timeout=WORKER_TIMEOUT_S, **kw)
@@ -1527,6 +1767,8 @@ def exec_sqlite_refuse(ctx, case):
 OPT_VARIANTS = {
     "plain": ((), {}), "-O": (("-O",), {}), "-OO": (("-OO",), {}), "PYTHONOPTIMIZE=1": ((), {"PYTHONOPTIMIZE": "1"}),
     "PYTHONOPTIMIZE=2": ((), {"PYTHONOPTIMIZE": "2"}),
+    # environment-level configuration: a comparison ignore set is active in the whole child (base.py reads it at import)
+    "FLOW_RECORD_IGNORE": ((), {"FLOW_RECORD_IGNORE": "seq,tag,_generated,blob"}),
 }
 CWD_KINDS = ["stream", "stream.gz", "stream.zst", "jsonfile", "csvfile", "avro", "sqlite", "line", "text"]
 CWD_HISTORIES = ["dwwc", "wdwc", "wwdc", "dwdwx", "wdfwc", "dc", "dx", "wwdx", "dwdwdc"]
@@ -1596,7 +1838,7 @@ def exec_optimized(ctx, case):
     if status is None:
         shutil.rmtree(d, ignore_errors=True)
         return
-    want_opt = {"plain": 0, "-O": 1, "-OO": 2, "PYTHONOPTIMIZE=1": 1, "PYTHONOPTIMIZE=2": 2}[variant]
+    want_opt = {"plain": 0, "-O": 1, "-OO": 2, "PYTHONOPTIMIZE=1": 1, "PYTHONOPTIMIZE=2": 2, "FLOW_RECORD_IGNORE": 0}[variant]
     if status.get("optimize") != want_opt:
         ctx.require(False, "the child for %s ran with sys.flags.optimize=%r" % (variant, status.get("optimize")))
         shutil.rmtree(d, ignore_errors=True)
@@ -1819,6 +2061,8 @@ def execute(ctx, case):
         return exec_split_relative(ctx, case)
     if case["k"] == "procstate":
         return exec_procstate(ctx, case)
+    if case["k"] == "tmplclose":
+        return exec_template_afterclose(ctx, case)
     if case["k"] == "ll":
         return exec_lowlevel(ctx, case)
     if case["k"] == "datesplit":
@@ -1871,6 +2115,14 @@ def finish(ctx):
                 "no SQLite history in which a record was refused and others accepted")
     ctx.require(ev.get("h_cases", 0) > 0 and ev.get("h_jobs", 0) > 0, "no child interpreter of the optimisation family reported")
     ctx.require(ev.get("i_cases", 0) > 0 and ev.get("i_jobs", 0) > 0, "no working-directory child reported")
+    ctx.require(ev.get("a_histories_with_same_name_composite", 0) > 0 and ev.get("b_cases_with_same_name_composite", 0) > 0
+                and ev.get("c_cases_with_same_name_composite", 0) > 0,
+                "no close history / split / rotation wrote an object holding two same-name types")
+    ctx.require(ev.get("a_late_writes", 0) > 0 and ev.get("c3_late_writes", 0) > 0, "no history with operations after close()")
+    ctx.require(ev.get("cases_with_ignore_set_active", 0) > 0, "no workload ran with a comparison ignore set active")
+    ctx.require(ev.get("a_histories_with_descriptor_turnover", 0) > 0, "no history with descriptor-object turnover")
+    ctx.require(ev.get("b_raw_concatenations_json_of_2plus_nonempty_parts", 0) > 0 and ev.get("b_raw_concatenations_csv", 0) > 0,
+                "no raw-byte concatenation of JSON-lines / CSV split parts")
     ctx.require(io17.coincident_ok(), "the identifier-coincident descriptor pairs do not share their identifier on this tree")
     ctx.require(ev.get("a_histories_with_coincident_pair", 0) > 0 and ev.get("b_cases_with_coincident_pair", 0) > 0
                 and ev.get("c_cases_with_coincident_pair", 0) > 0,
